@@ -19,13 +19,14 @@ WRITE = ("T-DISPLAY", r"write!\((?P<f>\w+), \"\{(?P<s>\w+)\}\"\)", r"\g<f>.write
 LOWER = ("T-STR", r"(?P<s>\b\w+)\.to_lowercase\(\)", r"crate::vfmt::str_to_lowercase(\g<s>)", 1)
 
 
-def display(text_fn):
-    return FnSpec(ret="r", sig=f"    ensures r is Ok ==> final(f).out@ == old(f).out@ + {text_fn}(*self), //@C04.text_form_is_the_registered_name,C15.text_form_is_the_registered_name,C11.text_form_reads_back,C05.text_form_is_the_registered_name,C01.text_form_is_the_registered_name\n",
-                  rewrites=[WRITE])
+def display(text_fn, props, what="text_form_is_the_registered_name"):
+    labels = ",".join(f"{p_}.{what}" for p_ in props)
+    return FnSpec(ret="r", sig=f"    ensures r is Ok ==> final(f).out@ == old(f).out@ + {text_fn}(*self), //@{labels}\n", rewrites=[WRITE])
 
 
-def parse(parse_fn, extra=()):
-    return FnSpec(ret="r", sig=f"    ensures match r {{ Ok(v) => {parse_fn}(s@) == Some(v), Err(_) => {parse_fn}(s@) is None }}, //@C11.text_form_reads_back,C14.names_are_read_case_insensitively\n",
+def parse(parse_fn, props, extra=()):
+    labels = ",".join(f"{p_}.names_are_read_back_whatever_their_case" for p_ in props)
+    return FnSpec(ret="r", sig=f"    ensures match r {{ Ok(v) => {parse_fn}(s@) == Some(v), Err(_) => {parse_fn}(s@) is None }}, //@{labels}\n",
                   rewrites=[LOWER] + list(extra))
 
 
@@ -39,26 +40,25 @@ def build():
     u.take(K, "KeyType", "crypto", keep_derives=("Clone", "Copy", "PartialEq"))
     u.take(C, "BaseHashFunction", "crypto", keep_derives=("Clone", "Copy", "PartialEq"))
     u.raw("crypto", CRYPTO_SPEC)
-    u.verify(J, "impl fmt::Display for JwsSignatureAlgorithm", "crypto", props=["C04", "C15", "C11"], fns={"fmt": display("alg_text")})
-    u.verify(J, "impl FromStr for JwsSignatureAlgorithm", "crypto", props=["C11", "C14"], fns={"from_str": parse("alg_parse")})
-    u.verify(K, "impl fmt::Display for KeyType", "crypto", props=["C11", "C02"], fns={"fmt": display("kt_text")})
-    u.verify(K, "impl FromStr for KeyType", "crypto", props=["C11", "C14"], fns={"from_str": parse("kt_parse", extra=[
-        ("T-STR", r"\.replace\('(?P<c>.)', \"(?P<t>[^\"]*)\"\)", r".replace_char('\g<c>', \"\g<t>\")", 1)])})
-    u.verify(C, "impl fmt::Display for BaseHashFunction", "crypto", props=["C01"], fns={"fmt": display("hash_text")})
+    u.verify(J, "impl fmt::Display for JwsSignatureAlgorithm", "crypto", props=["C04", "C15", "C11"], fns={"fmt": display("alg_text", ["C04", "C15", "C11"])})
+    u.verify(J, "impl FromStr for JwsSignatureAlgorithm", "crypto", props=["C11", "C14"], fns={"from_str": parse("alg_parse", ["C11", "C14"])})
+    u.verify(K, "impl fmt::Display for KeyType", "crypto", props=["C14"], fns={"fmt": display("kt_text", ["C14"])})
+    u.verify(K, "impl FromStr for KeyType", "crypto", props=["C14"], fns={"from_str": parse("kt_parse", ["C14"], extra=[
+        ("T-STR", r"\.replace\('(?P<c>.)', (?P<t>\"[^\"]*\")\)", lambda m: f".replace_char('{m.group('c')}', {m.group('t')})", 1)])})
     u.raw("crypto", CRYPTO_LEMMAS)
     u.module("acme_proto", "use crate::vfmt as fmt;\nuse crate::vfmt::Error;")
     u.take(AP, "Challenge", "acme_proto", keep_derives=("Clone", "Copy", "PartialEq"))
     u.raw("acme_proto", AP_SPEC)
-    u.verify(AP, "impl fmt::Display for Challenge", "acme_proto", props=["C05", "C10"], fns={"fmt": display("challenge_text")})
+    u.verify(AP, "impl fmt::Display for Challenge", "acme_proto", props=["C05"], fns={"fmt": display("challenge_text", ["C05"])})
     u.module("identifier", "use crate::vfmt as fmt;")
     u.take(I, "IdentifierType", "identifier", keep_derives=("Clone", "PartialEq"))
     u.raw("identifier", ID_SPEC)
-    u.verify(I, "impl fmt::Display for IdentifierType", "identifier", props=["C01"], fns={"fmt": display("id_type_text")})
+    u.verify(I, "impl fmt::Display for IdentifierType", "identifier", props=["C01"], fns={"fmt": display("id_type_text", ["C01"])})
     u.module("contact", "use crate::vfmt as fmt;\nuse crate::vfmt::FromStr;\nuse crate::vfmt::Error;")
     u.take(CT, "ContactType", "contact", keep_derives=("Clone", "PartialEq"))
     u.raw("contact", CT_SPEC)
-    u.verify(CT, "impl fmt::Display for ContactType", "contact", props=["C11"], fns={"fmt": display("ct_text")})
-    u.verify(CT, "impl FromStr for ContactType", "contact", props=["C11"], fns={"from_str": parse("ct_parse")})
+    u.verify(CT, "impl fmt::Display for ContactType", "contact", props=["C11"], fns={"fmt": display("ct_text", ["C11"], what="text_form_reads_back")})
+    u.verify(CT, "impl FromStr for ContactType", "contact", props=["C11"], fns={"from_str": parse("ct_parse", ["C11"])})
     u.raw("contact", CT_LEMMAS)
     return u
 
@@ -173,6 +173,7 @@ pub proof fn lemma_key_type_text_reads_back(k: KeyType)
     reveal_strlit("ecdsa"); reveal_strlit("p256"); reveal_strlit("p384"); reveal_strlit("p521");
     let t = kt_text(k);
     assert(crate::vfmt::plain(t));
+    crate::vfmt::axiom_lower_plain(t);
     match k {
         KeyType::EcdsaP256 => { assert(t =~= "ecdsa"@ + seq!['-'] + "p256"@); crate::vfmt::axiom_replaced_one("ecdsa"@, "p256"@, '-', "_"@); assert("ecdsa"@ + "_"@ + "p256"@ =~= "ecdsa_p256"@); }
         KeyType::EcdsaP384 => { assert(t =~= "ecdsa"@ + seq!['-'] + "p384"@); crate::vfmt::axiom_replaced_one("ecdsa"@, "p384"@, '-', "_"@); assert("ecdsa"@ + "_"@ + "p384"@ =~= "ecdsa_p384"@); }
@@ -206,5 +207,6 @@ pub proof fn lemma_contact_type_text_reads_back(t: ContactType)
 {
     reveal_strlit("mailto");
     assert(crate::vfmt::plain("mailto"@));
+    crate::vfmt::axiom_lower_plain("mailto"@);
 }
 """
